@@ -79,7 +79,10 @@ PUNCT_TEMPLATES = ("%s: %s", "%s:", "%s (in %s)", "%s, %s; %s", "%s - %s", "%s/%
 STRODD = ["it's", "100%", "{x}", "#tag", "a:b", "a=b", "a,b", "(x)", "[x]", "x;y", " lead", "trail ", "a|b", "True", "5", "-3",
           "1.5", "'", "%s"]  # (the last two: a lone quote character, a directive)
 # (a double quote, a backslash or a backtick inside a str default are genuine defects of the docstring layer: probe only)
-STRBAD = ['say "hi"', '"hi" he said', '3"', '5" nail', "a\\b", "`tick`", '"', "\\t"]
+STRBAD = ['say "hi"', '"hi" he said', '3"', '5" nail', "a\\b", "`tick`", '"', "\\t",
+          # one kind of quote at the front, the other at the back: no quoted literal, whatever a stripper of "a quote at
+          # either end" may think
+          "'yes' or \"no\"", "'tis \"fine\"", "\"x\" or 'y'"]
 # str defaults that open and / or close with a quote character
 STRQUOTE = ["'a\"", "\"b'", "'tis", "x'", "\"", "''"]  # (a value that starts and ends with the same quote character is how the IR spells a quoted literal: not a distinct value)
 NESTED_TYPES = ["Optional[List[int]]", "Union[int, str, float]", "List[Optional[str]]", "Dict[str, int]", "Tuple[int, str]",
